@@ -1182,9 +1182,12 @@ impl ObjectFile {
         let block_map = block_map.into_iter()
             .map(|(start, ObjBlock { words, .. })| (start, words))
             .collect();
+        // External declarations and their relocation entries are needed to link and to refuse loading
+        // an unlinked file, so they are kept even when debug symbols were not requested.
+        let has_external = sym.label_map.values().any(|data| data.external);
         Ok(Self {
             block_map,
-            sym: debug.then_some(sym),
+            sym: (debug || has_external).then_some(sym),
         })
     }
 
